@@ -1,3 +1,4 @@
+import ScrutModel.Lemmas.StripAnsi
 import ScrutModel.Lemmas.Template
 import ScrutModel.Lemmas.Crlf
 import ScrutModel.Lemmas.Divider
@@ -100,6 +101,42 @@ theorem C13_strip_after_crlf (keepCrlf : Option Bool) (strip : List UInt8 → Op
     renderOutput keepCrlf (some true) strip bs =
       strip (if keepCrlf = some true then bs else replaceCrlfSpec bs) :=
   renderOutput_strip keepCrlf strip bs
+
+/-! ## `strip_ansi_escaping: true`: scrut's own stripper (after fix: escape sequences only) -/
+
+open Scrut.StripAnsi in
+/-- **with `strip_ansi_escaping: true`** the recorded bytes are the CR-LF-processed bytes without
+their ANSI escape sequences, and nothing else happens to them: the result is a subsequence of the
+processed bytes (nothing added, changed or reordered), it holds no `ESC`, and bytes that hold no
+`ESC` at all -- TAB, CR, BEL, other control characters, invalid UTF-8 included -- are recorded as
+they are. -/
+theorem C13_strip_only_escape_sequences (keepCrlf : Option Bool) (bs : List UInt8) :
+    ∃ processed, processed = (if keepCrlf = some true then bs else replaceCrlfSpec bs) ∧
+      renderOutput keepCrlf (some true) (fun x => some (strip x)) bs = some (strip processed) ∧
+      (strip processed).Sublist processed ∧ esc ∉ strip processed ∧
+      (esc ∉ processed → strip processed = processed) :=
+  ⟨_, rfl, renderOutput_strip keepCrlf _ bs, strip_sublist _, esc_not_mem_strip _, strip_no_esc _⟩
+
+open Scrut.StripAnsi in
+/-- a CSI sequence (`ESC [`, parameter bytes, intermediate bytes, final byte -- colours, cursor
+movement) is removed as a whole, the text around it stays: `pre ESC[…m post` gives `pre` followed by
+the stripped `post` -/
+theorem C13_strip_csi (pre ps is post : List UInt8) (f : UInt8) (hpre : esc ∉ pre)
+    (hp : ∀ x ∈ ps, isParam x = true) (hi : ∀ x ∈ is, isInter x = true) (hf : isCsiFinal f = true) :
+    strip (pre ++ esc :: 0x5b :: (ps ++ (is ++ f :: post))) = pre ++ strip post := by
+  rw [strip_append_no_esc pre _ hpre, strip_csi ps is f post hp hi hf]
+
+open Scrut.StripAnsi in
+/-- stripping twice is stripping once -/
+theorem C13_strip_idempotent (bs : List UInt8) : strip (strip bs) = strip bs := strip_idempotent bs
+
+/-- regression example of fix (strip kept only printable text and LF): `a<TAB>b<CR>c<BEL>` with a
+bold `E` and CR LF: TAB, CR and BEL stay, the two CSI sequences go -/
+example : Scrut.StripAnsi.strip [97, 9, 98, 13, 99, 7, 0x1b, 0x5b, 0x31, 0x6d, 69, 0x1b, 0x5b, 0x30, 0x6d, 13, 10]
+    = [97, 9, 98, 13, 99, 7, 69, 13, 10] := by decide
+
+/-- an OSC string (window title) up to `BEL`, a two-byte sequence `ESC c`, a lone `ESC` at the end -/
+example : Scrut.StripAnsi.strip [0x1b, 0x5d, 0x30, 0x3b, 116, 7, 120, 0x1b, 0x63, 121, 0x1b] = [120, 121] := by decide
 
 /-! ## single-script mode -/
 
